@@ -7,11 +7,16 @@ package schema
 
 //@ nonnil log
 
+// Links inside an advertisement are CID links (what the IPLD codecs produce);
+// the payload functions assert that type without a check.
+//@ spec func adOK(ad val) bool = ad != nil && ad.Entries != nil && typeis(ad.Entries, "cidlink.Link") && (ad.PreviousID == nil || typeis(ad.PreviousID, "cidlink.Link"))
+
 // The signed payloads mention every signed value, once, in a fixed order
 // (call protocol on the bytes.Buffer; the Buffer itself is a dependency).
 //@ func signaturePayload
 //@   property C05
-//@   requires ad != nil && ad.Entries != nil
+//@   pure
+//@   requires adOK(ad)
 //@   at call Write#1: assert arg1 == bindex
 //@   at call Write#2: assert arg1 == ent
 //@   at call WriteString#1: assert arg1 == ad.Provider
@@ -26,7 +31,8 @@ package schema
 
 //@ func extendedProviderSignaturePayload
 //@   property C05
-//@   requires ad != nil && p != nil && ad.Entries != nil
+//@   pure
+//@   requires adOK(ad) && p != nil && ad.ExtendedProvider != nil
 //@   ensures old(ad.IsRm) ==> result1 != nil
 //@   at call Write#1: assert arg1 == bindex
 //@   at call Write#2: assert arg1 == ent
@@ -48,7 +54,7 @@ package schema
 // main provider's own entry).
 //@ func (*Advertisement).VerifySignature
 //@   property C05
-//@   requires ad != nil && ad.Entries != nil
+//@   requires adOK(ad)
 //@   ghost mainSigner := 0
 //@   ghost epKey := 0
 //@   at call ConsumeTypedEnvelope#1: assert arg0 == ad.Signature && typeis(arg1, "*schema.advSignatureRecord")
@@ -59,7 +65,7 @@ package schema
 //@   at call extendedProviderSignaturePayload#1: assert arg0 == ad && arg1.ID == ad.ExtendedProvider.Providers[rangeindex].ID && arg1.Metadata == ad.ExtendedProvider.Providers[rangeindex].Metadata && arg1.Addresses == ad.ExtendedProvider.Providers[rangeindex].Addresses
 //@   ensures-local result1 == nil ==> str(result0) == idOfKey(envKeyOf(content(ad.Signature))) && count("call:Equal") >= 1
 //@   ensures-local result1 == nil && ad.ExtendedProvider != nil && len(ad.ExtendedProvider.Providers) > 0 ==> exists(j, 0, len(ad.ExtendedProvider.Providers), ad.ExtendedProvider.Providers[j].ID == ad.Provider)
-//@   loop 1: invariant ad.ExtendedProvider != nil && rangeindex < len(ad.ExtendedProvider.Providers) && mainSigner == idOfKey(envKeyOf(content(ad.Signature))) && str(signerID) == mainSigner
+//@   loop 1: invariant adOK(ad) && ad.ExtendedProvider != nil && rangeindex < len(ad.ExtendedProvider.Providers) && mainSigner == idOfKey(envKeyOf(content(ad.Signature))) && str(signerID) == mainSigner
 //@   loop 1: invariant seenTopLevelProv <==> exists(j, 0, rangeindex + 1, ad.ExtendedProvider.Providers[j].ID == ad.Provider)
 //@   loop 1: iteration ensures ite(ad.ExtendedProvider.Providers[rangeindex].ID == ad.Provider, idOfKey(envKeyOf(content(ad.ExtendedProvider.Providers[rangeindex].Signature))) == mainSigner, idOfKey(envKeyOf(content(ad.ExtendedProvider.Providers[rangeindex].Signature))) == peerOfString(str(ad.ExtendedProvider.Providers[rangeindex].ID)))
 
@@ -67,21 +73,22 @@ package schema
 // every other entry with the key fetched for the identity it names.
 //@ func (*Advertisement).SignWithExtendedProviders
 //@   property C05
-//@   requires ad != nil && ad.Entries != nil
+//@   requires adOK(ad)
 //@   ghost fetched := zero("crypto.PrivKey")
-//@   at call extendedProviderKeyFetcher#1: assert arg0 == ad.ExtendedProvider.Providers[i].ID
+//@   at call extendedProviderKeyFetcher#1: assert arg0 == ad.ExtendedProvider.Providers[rangeindex].ID
 //@   at call extendedProviderKeyFetcher#1: after ghost fetched := result0
-//@   at call Seal#1: assert ite(ad.ExtendedProvider.Providers[i].ID == ad.Provider, arg1 == key, arg1 == fetched)
-//@   loop 1: invariant ad.ExtendedProvider != nil && 0 <= i && i < len(ad.ExtendedProvider.Providers)
+//@   at call Seal#1: assert ite(ad.ExtendedProvider.Providers[rangeindex].ID == ad.Provider, arg1 == key, arg1 == fetched)
+//@   loop 1: invariant ad.ExtendedProvider != nil && rangeindex < len(ad.ExtendedProvider.Providers) && adOK(ad)
 
 //@ func (*Advertisement).Sign
 //@   property C05
-//@   requires ad != nil && ad.Entries != nil
+//@   requires adOK(ad)
 //@   ensures-local old(ad.ExtendedProvider) != nil ==> result != nil && count("call:signAd") == 0
 
 //@ func (*Advertisement).signAd
 //@   property C05
-//@   requires ad != nil && ad.Entries != nil
+//@   modifies ad.Signature
+//@   requires adOK(ad)
 //@   at call Seal#1: assert arg1 == key && typeis(arg0, "*schema.advSignatureRecord") && as(arg0, "*schema.advSignatureRecord").advID == advID && as(arg0, "*schema.advSignatureRecord").domain == nil && as(arg0, "*schema.advSignatureRecord").codec == nil
 
 //@ func (*advSignatureRecord).Domain
